@@ -888,6 +888,26 @@ def search(ctx):
         why = adapter_predicate(plug, k, iv, x)
         if why:
             ctx.fail("adapter-not-zero-padded-cbc", {"key": k, "iv": iv, "data": x}, why)
+    # e1. the lookup table of modes by name: AESModesOfOperation[name] is the mode of that name (judged by behaviour)
+    table = getattr(aes, "AESModesOfOperation", None)
+    if not isinstance(table, dict) or sorted(table) != ["cbc", "cfb", "ctr", "ecb", "ofb"]:
+        ctx.fail("mode-table", {"names": sorted(table) if isinstance(table, dict) else None}, "AESModesOfOperation does not list exactly ecb, cbc, cfb, ofb, ctr")
+    else:
+        for name in sorted(table):
+            k, iv = rkey(r), rbytes(r, 16)
+            data = rbytes(r, 16 if name in ("ecb", "cbc") else 48)
+            mode = {"ecb": "ECB", "cbc": "CBC", "cfb": ("CFB", 1), "ofb": "OFB", "ctr": "CTR"}[name]
+            ctx.case(("mode-table", name, k, iv, data))
+
+            def via_table():
+                cls = table[name]
+                mo = cls(k) if name in ("ecb", "ctr") else cls(k, iv)
+                return bytes(mo.encrypt(data)) if name != "cfb" else bytes(mo.encrypt(data))
+            got = run_impl(via_table)
+            want = run_impl(lambda: bytes(mk_mode(aes, mode, k, None if name in ("ecb", "ctr") else iv, None).encrypt(data)))
+            if got != want or got[0] != "ok":
+                ctx.fail("mode-table", {"name": name, "key": k, "iv": iv, "data": data},
+                         "AESModesOfOperation[%r] encrypts to %r, the mode of that name to %r" % (name, got, want))
     # e2. encrypt_stream / decrypt_stream: input streams whose read() returns fewer bytes than asked for,
     #     every mode / direction / padding, block_size 1, 7, 16, 33, 64, 8192 and the default
     scombos = []
@@ -1069,6 +1089,13 @@ def replay(ctx, data):
                                    pieces, d["block_size"])
             print(" reads deliver:", [c.hex() for c in pieces], "block_size", d["block_size"], "->", why)
             rc |= bool(why)
+        elif kind == "mode-table":
+            table = getattr(aes, "AESModesOfOperation", {})
+            names = {"ecb": "AESModeOfOperationECB", "cbc": "AESModeOfOperationCBC", "cfb": "AESModeOfOperationCFB",
+                     "ofb": "AESModeOfOperationOFB", "ctr": "AESModeOfOperationCTR"}
+            bad = {n: getattr(table.get(n), "__name__", None) for n in names if table.get(n) is not getattr(aes, names[n], None)}
+            print(" entries of AESModesOfOperation that are not the class of that name:", bad or "none")
+            rc |= bool(bad)
         elif kind == "adapter-not-zero-padded-cbc":
             why = adapter_predicate(plug, _b(d["key"]), _b(d["iv"]), _b(d["data"]))
             print(" ->", why)
